@@ -330,7 +330,9 @@ def chain_check(case, ref, r0, cps, reps, refname=None):
             parts.append("killed_trace_ok %s %s %s %s" % (head, C.cbool(resume), C.cnat(cps[i][0]), t))
         else:
             if rep["outcome"] == "ok":
-                oc = "(Some (%s, %s))" % (C.cnat(rep["final"]["n_samples"]), C.cbool(rep["final"]["hash"] == ref["final"]["hash"]))
+                # number of residuals: a plain SampleList (MAP result) holds the position only
+                nres = 0 if rep["final"].get("type") == "SampleList" else rep["final"]["n_samples"]
+                oc = "(Some (%s, %s))" % (C.cnat(nres), C.cbool(rep["final"]["hash"] == ref["final"]["hash"]))
             else:
                 oc = "None"
             if refname:
